@@ -298,7 +298,7 @@ impl<T, Ptr: PointerFamily> MetaSlotMap<T, Ptr> {
 
     pub(crate) unsafe fn store_value(&mut self, key: SlotMapKey, value: T) -> bool {
         self.verify_init("store()");
-        if key.0 > self.capacity_impl() {
+        if key.0 >= self.capacity_impl() {
             return false;
         }
 
@@ -319,7 +319,7 @@ impl<T, Ptr: PointerFamily> MetaSlotMap<T, Ptr> {
 
     pub(crate) unsafe fn remove_impl(&mut self, key: SlotMapKey) -> Option<T> {
         self.verify_init("remove()");
-        if key.0 > self.idx_to_data.len() {
+        if key.0 >= self.idx_to_data.len() {
             return None;
         }
 
